@@ -50,12 +50,39 @@ func wideType(t *rapid.T, o TypeOpts, depth int) spec.TypeSpec {
 	return spec.T(rapid.SampledFrom(wideLeaves).Draw(t, "wideleaf"))
 }
 
+// Uniform draws an index in [0, n) without rapid's bias towards small values
+// (see weighted); it still shrinks towards 0.
+func Uniform(t *rapid.T, label string, n int) int {
+	if n <= 1 {
+		return 0
+	}
+	return rapid.IntRange(0, n*4096-1).Draw(t, label) % n
+}
+
+// ChoiceBytes draws n decision bytes without the bias towards zero.
+func ChoiceBytes(t *rapid.T, label string, n int) []byte {
+	out := make([]byte, n)
+	for i := range out {
+		out[i] = byte(Uniform(t, label, 256))
+	}
+	return out
+}
+
+// UniformRange draws uniformly in [lo, hi].
+func UniformRange(t *rapid.T, label string, lo, hi int) int {
+	return lo + Uniform(t, label, hi-lo+1)
+}
+
 func weighted(t *rapid.T, label string, choices []string, weights []int) string {
 	total := 0
 	for _, w := range weights {
 		total += w
 	}
-	n := rapid.IntRange(0, total-1).Draw(t, label)
+	// rapid's integer generators favour small values (a geometric choice of bit
+	// length), which would make the first alternative dominate; drawing from a
+	// much wider range and reducing it keeps the intended weights most of the
+	// time while still shrinking towards the first alternative.
+	n := rapid.IntRange(0, total*4096-1).Draw(t, label) % total
 	for i, w := range weights {
 		if n < w {
 			return choices[i]
@@ -133,7 +160,7 @@ func StructType(t *rapid.T, o TypeOpts, depth int) spec.TypeSpec {
 	if rapid.IntRange(0, 19).Draw(t, "emptyStruct") == 0 {
 		lo = 0
 	}
-	n := rapid.IntRange(lo, maxF).Draw(t, "nfields")
+	n := UniformRange(t, "nfields", lo, maxF)
 	used := map[string]bool{}
 	ts := spec.TypeSpec{K: "struct"}
 	for i := 0; i < n; i++ {
@@ -389,7 +416,7 @@ func Value(t *rapid.T, ts spec.TypeSpec, o ValueOpts) spec.ValueSpec {
 		case 1:
 			v.Elems = []spec.ValueSpec{}
 		default:
-			n := rapid.IntRange(1, maxE).Draw(t, "len")
+			n := UniformRange(t, "len", 1, maxE)
 			for i := 0; i < n; i++ {
 				v.Elems = append(v.Elems, Value(t, *ts.Elem, o))
 			}
@@ -402,7 +429,7 @@ func Value(t *rapid.T, ts spec.TypeSpec, o ValueOpts) spec.ValueSpec {
 			v.Keys = [][]byte{}
 			v.Elems = []spec.ValueSpec{}
 		default:
-			n := rapid.IntRange(1, maxE).Draw(t, "len")
+			n := UniformRange(t, "len", 1, maxE)
 			seen := map[string]bool{}
 			for i := 0; i < n; i++ {
 				k := Str(t, "key")
